@@ -136,3 +136,38 @@ Qed.
 (* rollback_to_block changes nothing get_transaction_with_header reads *)
 Lemma rollback_keeps_pairing st to t : reported_block (pstep st (PX_rollback to)) t = reported_block st t.
 Proof. reflexivity. Qed.
+
+(* get_transaction_with_header reads TxHash -> number, then `expect`s BlockNumber(number): the second map always has the number *)
+Definition PTotal (st : pstore) : Prop :=
+  forall t bn, a_get N.eqb t (p_txs st) = Some bn -> exists bh, a_get N.eqb bn (p_num st) = Some bh.
+
+Lemma num_put_total (m : list (N * N)) bn bh n :
+  (exists h, a_get N.eqb n m = Some h) \/ n = bn -> exists h, a_get N.eqb n (a_put N.eqb bn bh m) = Some h.
+Proof.
+  intros H. rewrite (a_get_put N.eqb Neqb_spec). destruct (N.eqb_spec n bn) as [E|E]; [exists bh; reflexivity|].
+  destruct H as [H|H]; [exact H | contradiction].
+Qed.
+
+Lemma pstep_total st o : PTotal st -> PTotal (pstep st o).
+Proof.
+  intros H. destruct o as [bh bn ts|bh bn t0|bh bn|to]; [| | |exact H].
+  - destruct ts as [|x ts']; [exact H|]. cbn [pstep index_block]. intros t n G. cbn [p_txs] in G. cbn [p_num].
+    rewrite fold_put_get in G. apply num_put_total. destruct (existsb (N.eqb t) (x :: ts')).
+    + inversion G; subst. right. reflexivity.
+    + left. exact (H _ _ G).
+  - cbn [pstep]. intros t n G. cbn [p_txs] in G. cbn [p_num]. apply num_put_total.
+    destruct (a_get N.eqb t0 (p_txs st)) as [n0|] eqn:E.
+    + left. exact (H _ _ G).
+    + rewrite (a_get_put N.eqb Neqb_spec) in G. destruct (N.eqb_spec t t0) as [Et|Et].
+      * inversion G; subst. right. reflexivity.
+      * left. exact (H _ _ G).
+  - cbn [pstep]. intros t n G. cbn [p_txs] in G. cbn [p_num]. apply num_put_total. left. exact (H _ _ G).
+Qed.
+
+Theorem pairing_total ops t bn :
+  a_get N.eqb t (p_txs (prun ops)) = Some bn -> exists bh, a_get N.eqb bn (p_num (prun ops)) = Some bh.
+Proof.
+  unfold prun. assert (G : forall st, PTotal st -> PTotal (fold_left pstep ops st)).
+  { induction ops as [|o ops IH]; intros st H; [exact H|]. cbn [fold_left]. apply IH. apply pstep_total. exact H. }
+  apply G. intros t0 n0 H0. discriminate H0.
+Qed.
